@@ -137,6 +137,20 @@ def replyDoc (raw : String) (idAttr : String) (extraAttrs : List AttrItem) (cs :
            span := none } ::
     cs.flatMap Top.render ++ [.end raw, .eof]
 
+/-- the same message with `Misc` around the root element (XML `document ::= prolog element Misc*`):
+`pre` comments in front of `<rpc-reply>` and `post` comments between `</rpc-reply>` and EOF
+(white space there never reaches the event list: the tokenizer trims text) -/
+def replyDocMisc (pre post : Nat) (raw : String) (idAttr : String) (extraAttrs : List AttrItem) (cs : List Top) : List Ev :=
+  List.replicate pre .comment ++
+    (.start { ns := .bound BASE, lname := "rpc-reply", raw := raw,
+              attrs := .ok { key := "message-id", ns := .unbound, lname := "message-id", value := some idAttr } :: extraAttrs,
+              span := none } ::
+      cs.flatMap Top.render ++ .end raw :: List.replicate post .comment ++ [.eof])
+
+theorem replyDocMisc_zero (raw : String) (idAttr : String) (extraAttrs : List AttrItem) (cs : List Top) :
+    replyDocMisc 0 0 raw idAttr extraAttrs cs = replyDoc raw idAttr extraAttrs cs := by
+  simp [replyDocMisc, replyDoc]
+
 def Top.errValue? : Top → Option RpcError
   | .err e => some e.value
   | _ => none
